@@ -21,8 +21,9 @@ CORR_MODULES = ["Lang.IdlCorr"]
 PREFIX = "C41"
 CASE_TYPE = "C41_case"
 HARNESS = "c41"
-KNOWN = {1: "C41-bounds-dropped", 2: "C41-annotation-first-declarator-only",
-         3: "C41-array-dimensions-dropped", 4: "C41-split-attributes", 5: "C41-id-ignored-unless-mutable"}
+# (class 2, C41-annotation-first-declarator-only, was fixed in /repo by 7270bfe and is retired)
+KNOWN = {1: "C41-bounds-dropped", 3: "C41-array-dimensions-dropped", 4: "C41-split-attributes",
+         5: "C41-id-ignored-unless-mutable"}
 RULE = ("a case is an IDL specification (modules, structs with annotated members, enums, unions, typedefs, "
         "constants, forward declarations, #define/#ifdef/#ifndef gating) printed from a random syntax tree of the "
         "supported subset plus boundary trees (reserved words as identifiers, constructs the generator answers "
@@ -42,7 +43,7 @@ ASSUMPTIONS = ["PARTIAL: the pest parser and rustc/the derive macro are outside 
                "an unqualified IDL name spelled like a Rust built-in type (u8, i32, String ..) denotes that type",
                "#define is modelled for value-less flags whose name occurs nowhere else in the text",
                "structure is claimed outside the recorded classes only (known findings C41-bounds-dropped, "
-               "C41-annotation-first-declarator-only, C41-array-dimensions-dropped, C41-split-attributes)"]
+               "C41-array-dimensions-dropped, C41-split-attributes)"]
 
 TESTS_DIR = os.path.join(REPO, "dds_gen", "tests")
 
@@ -1136,7 +1137,7 @@ BASE = {"bound": 0.0, "split": 0.0, "multi_annot": 0.0, "multi_dim": 0.0, "neste
 FLAVOURS = [
     (0.46, {}),                                               # clean: supported subset, no known class
     (0.10, {"bound": 0.5}),                                   # class 1
-    (0.07, {"multi_annot": 1.0}),                             # class 2
+    (0.07, {"multi_annot": 1.0}),                             # annotated member with several declarators (former class 2)
     (0.06, {"multi_dim": 0.6}),                               # class 3
     (0.09, {"split": 1.0}),                                   # class 4
     (0.05, {"bound": 0.3, "split": 0.7, "multi_annot": 0.7, "multi_dim": 0.4}),   # mixtures
@@ -1206,7 +1207,8 @@ def corpus():
     # minimised regression cases
     fixed = [
         'struct User { wstring<8> name; sequence<unsigned long, 2> deps; };',
-        'struct S { @key long a, b; };',
+        'struct S { @key long a, b; };',                                       # regression: fix 7270bfe
+        '@mutable struct S { @key @id(4) long a, b[2]; @optional string c, d; @id(9) long e, f, g; };',   # regression: fix 7270bfe
         'struct S { long x[2][3]; };',
         'module M { @mutable struct A { @id(7) @key long y; }; };',
         'struct S { @key @id(1) int32 id; };',
@@ -1648,14 +1650,14 @@ def extra(ctx, binary):
 MANIFEST = {
     "text": ("Machine-checked proof (Coq) over a model of the IDL compiler's Rust generator (dds_gen/src/generator/rust.rs, "
              "rule by rule, plus the reserved-word rule of the grammar and the #define/#ifdef gating of the preprocessor): "
-             "for EVERY specification of the supported subset that is outside four recorded classes, the structure read off "
+             "for EVERY specification of the supported subset that is outside three recorded classes, the structure read off "
              "the generated Rust items the way #[derive(DdsType)] reads them (names, module nesting, member order and "
              "kinds, array sizes, keys, member ids, optional flags, extensibility, base type, qualified type name, "
              "enumerators and values, union discriminator, case labels and default) equals the structure the IDL declares; "
              "names, nesting, enumerators and labels are preserved for all supported specifications without exception, and "
-             "for all of them the structure is preserved up to exactly what the classes present can lose. The four classes "
-             "are refuted by witnesses and recorded as known findings: string/sequence bounds are dropped (D34), annotations "
-             "of a member with several declarators reach only the first, array dimensions after the first are dropped, and "
+             "for all of them the structure is preserved up to exactly what the classes present can lose. The three classes "
+             "are refuted by witnesses and recorded as known findings: string/sequence bounds are dropped (D34), "
+             "array dimensions after the first are dropped, and "
              "of several #[dust_dds] attributes written on one item the derive reads only the first (keys, ids, qualified "
              "names, base types get lost). Two ties to the code on every run: (1) the real compiler is run on random "
              "specifications and on the repository's own test IDL files, its output is parsed and compared with the model "
@@ -1668,7 +1670,7 @@ MANIFEST = {
              "props/C41.py; harness. Axioms: none. Not covered: interfaces, named annotation parameters, #include and "
              "#define with a value, constructs the generator answers with todo!(); the description-level model of the "
              "derive macro is tied by correspondence only (no theorem). Known findings: C41-bounds-dropped, "
-             "C41-annotation-first-declarator-only, C41-array-dimensions-dropped, C41-split-attributes, "
+             "C41-array-dimensions-dropped, C41-split-attributes, "
              "C41-id-ignored-unless-mutable, C41-generated-code-does-not-compile."),
     "technique": "Coq proof (structural induction over the syntax tree) + differential correspondence with the real compiler, oracle evaluated in Coq; cargo check/build of generated code, printed type descriptions compared in Coq",
 }
